@@ -211,6 +211,39 @@ def role_fns(meta):
     return out
 
 
+def guard_string_set(g):
+    """String literals for which a guard over a name is true: `n == "A"`, `.. || ..`, `matches!(n, "A" | "B")`,
+    `["A", "B"].contains(&n)`."""
+    g = peel(g)
+    k = kind(g)
+    if k == "Binary" and g["op"] == "||":
+        return guard_string_set(g["l"]) | guard_string_set(g["r"])
+    if k == "Binary" and g["op"] == "==":
+        for side in (g["r"], g["l"]):
+            lit = hirq.lit_value(peel(side))
+            if isinstance(lit, str):
+                return {lit}
+        return set()
+    if k == "MethodCall" and g.get("path") == "core::cmp::PartialEq::eq":
+        for side in [g["recv"]] + g["args"]:
+            lit = hirq.lit_value(peel(side))
+            if isinstance(lit, str):
+                return {lit}
+        return set()
+    if k == "Match":
+        out = set()
+        for arm in g["arms"]:
+            if hirq.lit_value(peel(arm["body"])) is True and arm.get("guard") is None:
+                out |= set(q.get("v") for q in walk(arm["pat"]) if q.get("k") == "PLit" and q.get("lk") == "str")
+        return out
+    if k == "MethodCall" and g["m"] == "contains":
+        rc = peel(g["recv"])
+        if kind(rc) == "Array":
+            vals = rc.get("lits") or [hirq.lit_value(peel(e)) for e in rc.get("elems", [])]
+            return set(v for v in vals if isinstance(v, str))
+    return set()
+
+
 def restorer_table(meta):
     """(recognised built-in names, recognised variants) from the restorer's stack-effect predicate."""
     fn = role_fns(meta)["modifies"]
@@ -227,13 +260,8 @@ def restorer_table(meta):
         if not body_true:
             continue
         if arm.get("guard") is not None:
-            g = peel(arm["guard"])
-            if kind(g) == "Binary" and g["op"] == "==":
-                lit = hirq.lit_value(g["r"])
-                if lit is None:
-                    lit = hirq.lit_value(g["l"])
-                if isinstance(lit, str) and OEXPR + "::Ident" in pv:
-                    names.add(lit)
+            if OEXPR + "::Ident" in pv:
+                names |= guard_string_set(arm["guard"])
         else:
             for v in pv:
                 variants.add(v.split("::")[-1])
@@ -468,6 +496,10 @@ def pipeline(rep, meta, sfx):
         if kind(a) == "Path" and a.get("res") == "def":
             return a["path"], None
         if kind(a) == "Closure":
+            b = peel(a["body"])
+            if kind(b) == "Block" and b.get("inlined"):
+                # the pass function was inlined into the stage closure (helper-inlined view)
+                return b["inlined"], {"k": "Call", "args": hirq.call_like_args(b), "sp": b.get("sp")}
             calls = [x for x in walk(a["body"]) if kind(x) == "Call" and isinstance(callee(x), str)]
             if len(calls) == 1:
                 return callee(calls[0]), calls[0]
@@ -516,8 +548,9 @@ def pipeline(rep, meta, sfx):
         lid = hirq.local_id(call["args"][1])
         if lid in lets:
             init = peel(lets[lid][0])
-            if kind(init) == "Call" and init["args"]:
-                src = hirq.local_id(init["args"][0])
+            iargs = hirq.call_like_args(init)
+            if iargs:
+                src = hirq.local_id(iargs[0])
                 base = hirq.local_id(second[2]["recv"]) if kind(second[2]) == "MethodCall" else hirq.local_id(second[2])
                 okmap = src is not None and src == base and "OptimizedExpr" in call["args"][1].get("ty", "")
     if not okmap:
@@ -535,15 +568,19 @@ RULETYPE = "pest_meta::ast::RuleType"
 NO_IMPLICIT_WS = {"Atomic", "CompoundAtomic"}   # oracle: derive/src/lib.rs "@ atomic", "$ compound atomic"
 
 
-def ruletype_truth(cond, variants):
+def ruletype_truth(cond, variants, lets=None, modes=None, depth=0):
     """Set of RuleType variants for which cond CAN be true, or None if cond does not test a RuleType."""
     cond = peel(cond)
     k = kind(cond)
+    if k == "Path" and cond.get("res") == "local" and lets and cond["id"] in lets and not (modes or {}).get(cond["id"]) \
+            and depth < 4:
+        # `let is_atomic = ty == RuleType::Atomic;` tested later
+        return ruletype_truth(lets[cond["id"]][0], variants, lets, modes, depth + 1)
     if k == "Unary" and cond["op"] == "!":
-        inner = ruletype_truth(cond["e"], variants)
+        inner = ruletype_truth(cond["e"], variants, lets, modes, depth)
         return None if inner is None else set(variants) - inner
     if k == "Binary" and cond["op"] in ("&&", "||"):
-        a, b = ruletype_truth(cond["l"], variants), ruletype_truth(cond["r"], variants)
+        a, b = ruletype_truth(cond["l"], variants, lets, modes, depth), ruletype_truth(cond["r"], variants, lets, modes, depth)
         if a is None and b is None:
             return None
         if cond["op"] == "&&":
@@ -593,18 +630,36 @@ def wsguard(rep, meta, sfx):
     for fn in meta.bodies:
         if not fn["path"].startswith("pest_meta::optimizer::") or fn.get("exp"):
             continue
+        lets = hirq.lets(fn["body"])
+        modes = hirq.binding_modes(fn)
+
+        def identity(b):
+            """Does this branch hand back a local unchanged (the 'no rewrite' side of a guard)?"""
+            if b is None:
+                return True
+            leaves = hirq.tail_leaves(b)
+            rets = [x["e"] for x in walk(b) if kind(x) == "Ret" and x.get("e") is not None]
+            vals = [peel(v) for v in leaves + rets]
+            return bool(vals) and all(kind(v) == "Path" and v.get("res") == "local" for v in vals)
         conds = []
         for x in walk(fn["body"]):
             if kind(x) == "If":
-                conds.append(x["cond"])
+                conds.append((x["cond"], x))
             elif kind(x) == "Match":
                 for arm in x["arms"]:
                     if arm.get("guard") is not None:
-                        conds.append(arm["guard"])
-        for cnd in conds:
-            ts = ruletype_truth(cnd, variants)
+                        conds.append((arm["guard"], None))
+        for (cnd, ifnode) in conds:
+            ts = ruletype_truth(cnd, variants, lets, modes)
             if ts is None:
                 continue
+            if ifnode is not None and identity(ifnode["then"]) and hirq.diverges(ifnode["then"]) \
+                    and ifnode.get("else") is None:
+                # `if <test> { return expr }` followed by the rewrite: the rewrite runs where the test is false
+                ts = set(variants) - ts
+            elif ifnode is not None and identity(ifnode["then"]) and ifnode.get("else") is not None \
+                    and not identity(ifnode["else"]):
+                ts = set(variants) - ts
             n += 1
             key = "%s:%s" % (fn["path"].replace("pest_meta::optimizer::", ""), "+".join(sorted(ts)))
             r.instance(key, where(cnd), "rewrite enabled for %s" % sorted(ts))
